@@ -550,6 +550,27 @@ fn random_call(rng: &mut Rng, m: &Mkt) -> Value {
                    "pieces": sids.iter().map(|i| json!({"id": i, "dataOK": true})).collect::<Vec<_>>()}]})
         };
     }
+    // a sector holding an expired-but-unsettled deal next to a running one: terminate it now and then
+    {
+        let stv = st["st"].as_array().unwrap();
+        for s1 in stv {
+            let d1 = st["prop"].as_array().unwrap().iter().find(|p| p["id"] == s1["id"]);
+            if let Some(d1) = d1 {
+                if d1["d"]["end"].as_i64().unwrap() <= epoch && rng.chance(35) {
+                    let sector = s1["s"]["sector"].as_i64().unwrap();
+                    return json!({"a": "Terminate", "m": d1["d"]["p"], "secs": [sector]});
+                }
+            }
+        }
+    }
+    // activation lists with a non-adjacent repeat
+    if waiting.len() >= 2 && rng.chance(6) {
+        let a = waiting[0]["id"].as_i64().unwrap();
+        let b = waiting[1]["id"].as_i64().unwrap();
+        let m = waiting[0]["d"]["p"].as_str().unwrap();
+        let exp = waiting[0]["d"]["end"].as_i64().unwrap().max(waiting[1]["d"]["end"].as_i64().unwrap());
+        return json!({"a": "Activate", "m": m, "sectors": [{"sector": 1, "expiry": exp, "ids": [a, b, a]}]});
+    }
     if !active.is_empty() && rng.chance(20) {
         let mut sids = vec![*rng.pick(&active)];
         if rng.chance(30) { sids.push(*rng.pick(&active)); }
